@@ -20,12 +20,10 @@ import re
 from harness.lib import sx as SX
 
 ID = "C10"
-DISABLED = "work in progress: model and correspondence exist, the invariant proof (C10/Lemmas.v) is being repaired (DESIGN.md section 8, C10)"
-SETUP_SKIP = True
 COQ_DIR = "C10"
 RUN_MOD = "C10.Run"
 MODEL_TARGETS = ["C10/Run.vo"]
-PROOF_TARGETS = ["C10/Lemmas.vo", "C10/SgrLemmas.vo"]
+PROOF_TARGETS = ["C10/SgrLemmas.vo", "C10/Lemmas.vo", "C10/LemmasInv.vo", "C10/LemmasRun.vo", "C10/LemmasPure.vo", "C10/LemmasTop.vo", "C10/LemmasWit.vo"]
 PROPS = ["C10/Props.v"]
 ALLOWED_AXIOMS = []
 IMPL_TIMEOUT = 20.0
@@ -125,9 +123,19 @@ def _c3(name, bases_of):
 _EXTRACT_CACHE = {}
 
 
-def extract(repo):
+def extract(repo, strict=True):
     """-> dict with classes (list of dicts), names of syntax ids / accessors, builtin config and the
-    two source facts.  Raises ExtractError when the source does not have the recognised shape."""
+    two source facts.  Raises ExtractError when the source does not have the recognised shape.
+    strict=False (implementation side, oracle): an unrecognised *source fact* (enum cache key, cache reset
+    clause) is recorded in res["fact_error"] instead of raised, so that the history can still be run and a
+    failing input reported; gen_consts stays strict (fail closed: the proofs do not build)."""
+    res = _extract(repo)
+    if strict and res.get("fact_error"):
+        raise ExtractError(res["fact_error"])
+    return res
+
+
+def _extract(repo):
     key = os.path.abspath(repo)
     mt = tuple(os.path.getmtime(os.path.join(repo, "ak", m + ".py")) for m in MODULES)
     if key in _EXTRACT_CACHE and _EXTRACT_CACHE[key][0] == mt:
@@ -297,6 +305,21 @@ def extract(repo):
         classes.append({"mod": k[0], "q": k[1], "defaults": eff("defaults"), "parents": [order.index(p) for p in (eff("parents") or [])],
                         "parents_none": eff("parents") is None, "local": loc, "compound": ("color", "CompoundPalette") in mro})
     # source facts ------------------------------------------------------------
+    fact_error = None
+    try:
+        key_is_object, reset = _source_facts(cdefs, cc)
+    except ExtractError as e:
+        key_is_object, reset, fact_error = None, None, str(e)
+    synts = sorted({dflt} | set(builtin) | {s for c in classes for s in c["local"].values()} | {s for c in classes for s in (c["defaults"] or {})}
+                   | {p for d in [builtin] + [c["defaults"] or {} for c in classes] for p in [parse_descr(x)[0] for x in d.values()] if p})
+    accs = sorted({a for c in classes for a in c["local"]})
+    res = {"classes": classes, "synts": synts, "accs": accs, "dflt": dflt, "builtin": builtin,
+           "key_is_object": key_is_object, "reset": reset, "fact_error": fact_error}
+    _EXTRACT_CACHE[key] = (mt, res)
+    return res
+
+
+def _source_facts(cdefs, cc):
     # (1) key of the enum cell cache
     ef = None
     node = cdefs.get(("ppobj", "PPEnumFieldType"))
@@ -339,13 +362,7 @@ def extract(repo):
     others = [n for n in ast.walk(an) if isinstance(n, ast.Assign) and any(_dotted(t) == "self._cache" for t in n.targets)]
     if len(others) != (1 if reset else 0):
         raise ExtractError("add_new_items: assignments to self._cache not recognised")
-    synts = sorted({dflt} | set(builtin) | {s for c in classes for s in c["local"].values()} | {s for c in classes for s in (c["defaults"] or {})}
-                   | {p for d in [builtin] + [c["defaults"] or {} for c in classes] for p in [parse_descr(x)[0] for x in d.values()] if p})
-    accs = sorted({a for c in classes for a in c["local"]})
-    res = {"classes": classes, "synts": synts, "accs": accs, "dflt": dflt, "builtin": builtin,
-           "key_is_object": key_is_object, "reset": reset}
-    _EXTRACT_CACHE[key] = (mt, res)
-    return res
+    return key_is_object, reset
 
 
 def c_descr(s, synt_id):
@@ -1161,18 +1178,28 @@ def impl_run(case):
     import gc
     from ak import color
     repo = os.environ.get("VERIF_REPO", "/repo")
-    ex = extract(repo)
-    klasses = _classes(ex)
-    _check_table(ex, klasses)
+    try:
+        ex = extract(repo, strict=False)
+        klasses = _classes(ex)
+        _check_table(ex, klasses)
+        extract_error = None
+    except ExtractError as e:
+        # the palette class table of the source is not recognised: no probe, no model comparison (the proof
+        # step fails closed on the same error); the history is still run for the oracle
+        ex, klasses, extract_error = None, None, str(e)
     _reset_globals()
     # 1. probe
-    probe = _Probe(case, ex, klasses)
-    progs = []
-    for oi in range(len(case["objs"])):
-        pw = _World(case, probe)        # fresh field types for every probe
-        progs.append(probe.program(pw.objs[oi]))
-    ftdefs = [[[li, probe.lits[i].keys[li], {str(mi): d[mi][0] for mi in d}] for li, d in sorted(fd.items())] for i, fd in enumerate(probe.ftdefs)]
-    del pw
+    if ex is not None:
+        probe = _Probe(case, ex, klasses)
+        progs = []
+        for oi in range(len(case["objs"])):
+            pw = _World(case, probe)        # fresh field types for every probe
+            progs.append(probe.program(pw.objs[oi]))
+        ftdefs = [[[li, probe.lits[i].keys[li], {str(mi): d[mi][0] for mi in d}] for li, d in sorted(fd.items())] for i, fd in enumerate(probe.ftdefs)]
+        del pw
+        oom, aliased = probe.oom, probe.aliased
+    else:
+        progs, ftdefs, oom, aliased = None, None, "extractor: " + extract_error, False
     # 2. the history, with palette creations logged
     log = []
     orig_init = color.Palette.__init__
@@ -1210,7 +1237,7 @@ def impl_run(case):
     for rec, r in zip(recs, refs):
         if r:
             rec.update(r)
-    return {"progs": progs, "ftdefs": ftdefs, "ops": recs, "oom": probe.oom, "aliased": probe.aliased, "attempts": attempts}
+    return {"progs": progs, "ftdefs": ftdefs, "ops": recs, "oom": oom, "aliased": aliased, "attempts": attempts}
 
 
 # ====================================================================== model side
@@ -1249,7 +1276,7 @@ class _Synt:
 
 def coq_case(case, obs):
     from harness.lib import implrun
-    ex = extract(implrun.REPO)
+    ex = extract(implrun.REPO, strict=False)
     sid = _Synt(ex)
     fts = []
     for i, fd in enumerate(obs["ftdefs"]):
@@ -1334,7 +1361,10 @@ def _dangling_package_parent(content):
     """the configuration (user content) refers, as a parent, to a syntax id that only comes into existence when
     a palette class registers its SYNTAX_DEFAULTS"""
     from harness.lib import implrun
-    ex = extract(implrun.REPO)
+    try:
+        ex = extract(implrun.REPO, strict=False)
+    except ExtractError:
+        return False
     defaults = {s for c in ex["classes"] for s in (c["defaults"] or {})}
     have = set(ex["builtin"])
     for d in content[1]:
@@ -1380,7 +1410,7 @@ def oracle(case, obs):
             sig = "history-dependent"
             if op[0] == "help" and t == rec.get("ref_ctor"):
                 sig = "hdoc-captured-palette"
-            elif op[0] == "render":
+            elif op[0] == "render" and obs.get("progs") is not None:
                 prog = obs["progs"][op[1]]
                 has_enum = any(it[0] == "e" for l in prog.get("lines", []) for it in l)
                 if _dangling_package_parent(snaps[i]["conf"]):
@@ -1458,9 +1488,35 @@ def _well_formed(ops):
     return True
 
 
-TECHNIQUE = ("Coq proofs over an executable Gallina world model with explicit object identities (heap, allocation oracle, pinned set) "
-             "+ per-run correspondence of whole render histories (vm_compute vs implementation, chunk programs and identities as oracle values) "
-             "+ class table / cache key / cache reset clause regenerated from the source + independent fresh-state oracle")
-LEVEL_TEXT = "see harness/props/c10.notes.md"
-LEVEL_NOTE = "see harness/props/c10.notes.md"
+TECHNIQUE = ("Coq proofs over an executable Gallina world model with explicit object identities (heap, allocation oracle, pinned set): "
+             "every model function is shown to change the world by a sequence of nine primitive moves, four cache-coherence invariants "
+             "are proved once per move and hence for every history and every allocation oracle; on top of them the Render operation is "
+             "given in closed form.  Per-run correspondence of whole render histories (vm_compute vs implementation, chunk programs and "
+             "identities as oracle values) + class table / enum cache key / cache reset clause regenerated from the source + independent "
+             "fresh-state oracle on the implementation")
+LEVEL_TEXT = ("Model level, unbounded histories / objects / allocation oracles, guards: user syntax items in the modelled colour language, "
+              "no Python-equal enum values in one field type (obj_ok), no palette requested with synced=True.  "
+              "FULL: caches_coherent (inv: no stale enum cell, cached palettes carry the colours of their configuration's current map, "
+              "no_color palettes have no colours, prefixes are well-formed SGR), enum_cache_transparent, cache_reset_conf + cache_reset, "
+              "whole_eq_lines_chunks + whole_eq_lines (whole / by line / both orders give one text), strip_layout_chunks + strip_layout "
+              "(strip of ANY rendering of an object = its no_color rendering, which has no ESC; texts assumed ESC-free), "
+              "no_color_closed_form + history_independent_no_color (the property's history clause for no_color, every object, against a "
+              "fresh configuration), single_palette_closed_form + history_independent_single_palette (coloured renderings through one "
+              "palette -- pretty-printer, git history report programs: a closed formula of the object and of the configuration's own state "
+              "(no_color flag, syntax map, registered classes); caches, identities, other configurations and earlier renderings do not enter).  "
+              "PARTIAL: history_independent_compound_partial (tables / record formatters in colour: top palette colours in closed form and "
+              "enum cells transparent, but the sub-palettes' colours are only shown well-formed, not given in closed form); the closed forms "
+              "are relative to the configuration's CURRENT syntax map, which grows when palette classes register their defaults.  "
+              "REFUTED on the faithful model: history_independent_statement (the full wording: equal to the rendering under a fresh "
+              "configuration with the same user content) by history_independent_refuted / _statement_false = open finding late-registered-parent, "
+              "enum_alias_refuted = open finding enum-cache-equal-keys (outside obj_ok), help_captured_refuted = open finding hdoc-captured-palette; "
+              "id_keyed_cache_refuted shows the repaired defect on the model with the cache keyed by id(palette) (the proofs need source_facts).  "
+              "TESTED ONLY (correspondence + fresh-state oracle, not theorems): the layout code that turns an object into its chunk program "
+              "(pretty-printer, table, record formatter), the git history report and console help formatters (for them strip(colored) = "
+              "no_color, no ESC in no_color, whole = lines and order independence are checked on the implementation's output), synced palettes, "
+              "equality with a FRESH configuration for coloured renderings.")
+LEVEL_NOTE = ("Trusted: Coq kernel + vm_compute; fidelity of the hand-written world model (checked by correspondence on whole histories, not "
+              "proved); the chunk programs of the objects are taken from the implementation by a probe rendering; the ast extractor "
+              "(class table, enum cache key, cache reset clause) and the harness.  'Every printable object' is covered by theorems only "
+              "through its chunk program; the producers of the programs are tested.")
 DESIGN_REF = "DESIGN.md section 8, C10"
